@@ -2,9 +2,9 @@
 # extracts the Coq models (coqc Extract.v writes model.ml/.mli here) and builds ./driver
 set -e
 cd "$(dirname "$0")"
-stamp=$(cat ../coq/theories/Generated.v ../coq/theories/*.v driver.ml ext.ml build.sh 2>/dev/null | sha256sum | cut -c1-16)
+stamp=$(cat ../coq/theories/Generated.v ../coq/theories/*.v driver.ml common.ml ext.ml build.sh 2>/dev/null | sha256sum | cut -c1-16)
 if [ -x driver ] && [ -f .stamp ] && [ "$(cat .stamp)" = "$stamp" ]; then exit 0; fi
 rm -f .stamp
 timeout 900 coqc -R ../coq/theories KMIP ../coq/theories/Extract.v >/dev/null
-ocamlfind ocamlopt -O2 -w -a -o driver model.mli model.ml ext.ml driver.ml 2>/dev/null || ocamlfind ocamlopt -w -a -o driver model.mli model.ml ext.ml driver.ml
+ocamlfind ocamlopt -w -a -o driver model.mli model.ml common.ml ext.ml driver.ml
 echo "$stamp" > .stamp
